@@ -40,7 +40,7 @@ RULE = (
     "delayed/duplicated/grouped snapshots, reloads, law probes), value and equality checked after every op against "
     "the op-based specification over received-update sets, then a full sync. Non-trivial: updates at >=2 replicas and, "
     "before the final sync, merges in both directions around some replica (for orset: around a replica after a remove "
-    "that observed an add). store: 2-4 CRDTStore entities, ring or mesh gossip over a scripted lossy network, writes "
+    "that observed an add). store: 2-4 CRDTStore entities, symmetric (mesh, ring) and one-way peer lists (one-way ring, star whose hub is known only to its spokes, late joiner, random strongly connected digraph) over a scripted lossy network, writes "
     "through Write events (LWW through get_or_create().set with a real HLC over a skewed clock), checked only at a "
     "measured gossip fixpoint. Non-trivial: >=2 writers on one key and >=1 key merged by gossip on every node. "
     "Reporting: a state-equality or algebraic-law failure is reported only when all values involved match the "
@@ -54,7 +54,8 @@ ASSUMPTIONS = [
     "every replica has a distinct node id and only its owner applies local operations to it",
     "a merge (direct, via to_dict/from_dict, of a delayed or grouped snapshot) delivers exactly the updates the source had received when the state was captured",
     "store: quiescence is measured from the run: after the last state change of any store, gossip messages that were sent after that "
-    "instant and delivered (merged without effect) strongly connect all stores; runs that do not reach it are inconclusive; "
+    "instant and delivered (whether or not the receiver lists the sender as a peer) reach a store from every store: such a store has been handed every update and must show "
+    "the specified value, and all such stores must be equal; runs with no such store are inconclusive; "
     "the scripted network is loss-free and fast for the last 12 gossip intervals",
     "store/orset: every element is added at most once; only removes issued by the adder after its add are treated as having observed the add",
 ]
@@ -864,7 +865,8 @@ def gen_store(rng: random.Random, tier: str) -> dict:
     kind = rng.choice(["gcounter", "pncounter", "orset", "orset", "lww"])
     n = rng.choice([2, 2, 3, 3, 4])
     names = [f"s{i}" for i in range(n)]
-    topology = rng.choice(["mesh", "ring", "ring"]) if n > 2 else "mesh"
+    topology = rng.choice(["mesh", "ring", "ring", "ring1", "star-in", "joiner", "digraph", "digraph"]) if n > 2 else rng.choice(["mesh", "mesh", "star-in"])
+    peers = _gen_peers(rng, topology, n)
     interval = rng.choice([0.5, 1.0])
     n_keys = rng.choice([1, 1, 2, 3])
     keys = [f"k{j}" for j in range(n_keys)]
@@ -914,6 +916,7 @@ def gen_store(rng: random.Random, tier: str) -> dict:
         "kind": kind,
         "nodes": names,
         "topology": topology,
+        "peers": peers,
         "interval": interval,
         "keys": keys,
         "t_write": t_write,
@@ -923,6 +926,34 @@ def gen_store(rng: random.Random, tier: str) -> dict:
         "first_tick": [round(rng.uniform(0.02, interval), 6) for _ in range(n)],
         "py_random_seed": rng.randrange(1 << 30),
     }
+
+
+def _gen_peers(rng, topology: str, n: int) -> list:
+    """Per-node peer lists (add_peers is per node, so lists need not be symmetric).
+
+    mesh / ring: symmetric.  ring1: one-way ring (successor only).  star-in: only the spokes know the hub (node 0);
+    the hub gossips to nobody and, not knowing the senders, never answers.  joiner: the last node knows node 0 only and
+    nobody knows it; the others form a mesh.  digraph: a one-way ring through a random permutation (strongly connected)
+    plus random extra one-way edges."""
+    if topology == "ring":
+        return [sorted({(i + 1) % n, (i - 1) % n} - {i}) for i in range(n)]
+    if topology == "ring1":
+        return [[(i + 1) % n] for i in range(n)]
+    if topology == "star-in":
+        return [[]] + [[0] for _ in range(1, n)]
+    if topology == "joiner":
+        return [[j for j in range(n - 1) if j != i] for i in range(n - 1)] + [[0]]
+    if topology == "digraph":
+        order = list(range(n))
+        rng.shuffle(order)
+        out = [set() for _ in range(n)]
+        for a in range(n):
+            out[order[a]].add(order[(a + 1) % n])
+        for _ in range(rng.randrange(0, n)):
+            a, b = rng.sample(range(n), 2)
+            out[a].add(b)
+        return [sorted(x) for x in out]
+    return [[j for j in range(n) if j != i] for i in range(n)]
 
 
 def _store_write(rng, kind, i, k, t, uid, elem_kind, added):
@@ -975,7 +1006,9 @@ def run_store(case: dict) -> Result:
         for b in stores:
             if a is not b:
                 net.add_link(a, b, ChaosLink(name=f"{a.name}>{b.name}", latency=ConstantLatency(0.0), script=script, src_name=a.name, dst_name=b.name))
-    if case["topology"] == "ring":
+    if case.get("peers") is not None:
+        peers = {i: list(p) for i, p in enumerate(case["peers"])}
+    elif case["topology"] == "ring":
         peers = {i: sorted({(i + 1) % n, (i - 1) % n} - {i}) for i in range(n)}
     else:
         peers = {i: [j for j in range(n) if j != i] for i in range(n)}
@@ -1100,13 +1133,23 @@ def run_store(case: dict) -> Result:
         return seen_
 
     all_keys = sorted({k for s in stores for k in s.crdts})
-    fixpoint = reach(names[0], True) == set(names) and reach(names[0], False) == set(names)
-    merged_everywhere = all(s.stats.keys_merged > 0 for s in stores)
-    if not fixpoint:
-        res.inconclusive = "no strongly connected round of gossip after the last state change"
+    # A store that every store reaches through such exchanges has been handed (transitively) everybody's final state,
+    # hence every update: it must show the specified value, and all such stores must be equal.  With symmetric peer lists
+    # this is every store (strong connectivity); with one-way lists (star whose hub nobody answers, late joiner) it can
+    # be a proper subset.  An exchange counts when the message was DELIVERED to the store, whether or not the receiver
+    # lists the sender as a peer.
+    full = [i for i, nm in enumerate(names) if reach(nm, False) == set(names)]
+    if not full:
+        res.inconclusive = "after the last state change no store was reached by gossip from every store"
         res.count("store_not_quiescent")
         return res
     res.count("store_fixpoints")
+    res.count("stores_holding_all_updates", len(full))
+    symmetric = all((i in peers[j]) == (j in peers[i]) for i in range(n) for j in range(n) if i != j)
+    if not symmetric:
+        res.count("store_cases_with_one_way_peer_lists")
+    topo_shape = "" if symmetric else "|one-way-peer-lists"
+    merged_everywhere = all(stores[i].stats.keys_merged > 0 for i in full)
 
     comp = "CRDTStore"
     writers_per_key: dict[str, set] = {}
@@ -1129,14 +1172,14 @@ def run_store(case: dict) -> Result:
     for k in all_keys:
         crdts = [s.crdts.get(k) for s in stores]
         vals = [val(c) for c in crdts]
-        witness = {"key": k, "values": {names[x]: show(vals[x]) for x in range(n)}, "adopted": {f"{a}/{b}": c for (a, b), c in foreign.items() if b == k}}
-        res.count("value_checks", n)
-        res.count("equality_checks", n - 1)
+        witness = {"key": k, "values": {names[x]: show(vals[x]) for x in range(n)}, "stores_holding_all_updates": [names[x] for x in full], "peers": {names[x]: [names[y] for y in peers[x]] for x in range(n)}, "adopted": {f"{a}/{b}": c for (a, b), c in foreign.items() if b == k}}
+        res.count("value_checks", len(full))
+        res.count("equality_checks", len(full) - 1)
         # (1) what each replica shows against the specification, where the harness can decide it
         spec_bad = None  # (kind of deviation, text)
         if kind in ("gcounter", "pncounter"):
             want = sum((w["value"] if w["op"] == "increment" else -w["value"]) for w in case["writes"] if w["key"] == k)
-            for i, v in enumerate(vals):
+            for i, v in ((i_, vals[i_]) for i_ in full):
                 if v != want:
                     spec_bad = ("counter", f"{names[i]}[{k}] = {show(v)} at quiescence; increments - decrements written = {want}")
                     break
@@ -1144,7 +1187,7 @@ def run_store(case: dict) -> Result:
             ws = lww_writes.get(k, [])
             if ws:
                 tsk, v0 = max(ws, key=lambda x: x[0])
-                for i, v in enumerate(vals):
+                for i, v in ((i_, vals[i_]) for i_ in full):
                     if v != (v0, tsk):
                         spec_bad = ("lww", f"{names[i]}[{k}] holds {show(v)} at quiescence; the greatest-timestamp write is {(v0, tsk)!r}")
                         break
@@ -1153,7 +1196,7 @@ def run_store(case: dict) -> Result:
             rem_by_adder = {_elem_key(w["value"]) for w in case["writes"] if w["key"] == k and w["op"] == "remove" and w.get("by_adder")}
             rem_other = {_elem_key(w["value"]) for w in case["writes"] if w["key"] == k and w["op"] == "remove" and not w.get("by_adder")}
             must_present = {e for e in adds if e not in rem_by_adder and e not in rem_other}
-            for i, v in enumerate(vals):
+            for i, v in ((i_, vals[i_]) for i_ in full):
                 have = {_elem_key(x) for x in (v or frozenset())}
                 if rem_by_adder & have:
                     spec_bad = ("removed-present", f"{names[i]}[{k}] contains {sorted(rem_by_adder & have)} at quiescence although its adder removed it after adding it")
@@ -1164,16 +1207,22 @@ def run_store(case: dict) -> Result:
                 if must_present - have:
                     spec_bad = ("missing", f"{names[i]}[{k}] lacks {sorted(must_present - have)}: added and never removed")
                     break
+        if spec_bad is None:
+            for i in full:
+                if crdts[i] is None:
+                    spec_bad = ("key-missing", f"{names[i]} has no replica of key {k} at quiescence although it was handed the final state of every store (holders: {[names[x] for x in range(n) if crdts[x] is not None]})")
+                    break
         unequal = None
-        for i in range(1, n):
-            if not same(crdts[0], crdts[i]):
-                unequal = f"key {k}: {names[0]} shows {show(vals[0])} but {names[i]} shows {show(vals[i])} (== is {crdts[0] == crdts[i]}) at a gossip fixpoint"
+        for i in full[1:]:
+            f0 = full[0]
+            if not same(crdts[f0], crdts[i]):
+                unequal = f"key {k}: {names[f0]} shows {show(vals[f0])} but {names[i]} shows {show(vals[i])} (== is {crdts[f0] == crdts[i]}) at a gossip fixpoint; both were handed every store's final state"
                 break
         if spec_bad is None and unequal is None:
             continue
         # (2) structural precondition of the deviation, most direct observation first
         rt_bad = rt_during.get(k)
-        for i, c in enumerate(crdts):
+        for i, c in ((i_, crdts[i_]) for i_ in full):
             if c is not None and rt_bad is None:
                 back = type(c).from_dict(copy.deepcopy(c.to_dict()))
                 if not same(back, c):
@@ -1190,9 +1239,9 @@ def run_store(case: dict) -> Result:
             else:
                 res.add("replicas-unequal-at-quiescence", comp, ADOPT, unequal, witness)
         elif spec_bad is not None:
-            res.add("value-vs-spec-at-quiescence", comp, f"{kind}|{spec_bad[0]}|own-replicas", spec_bad[1], witness)
+            res.add("value-vs-spec-at-quiescence", comp, f"{kind}|{spec_bad[0]}|own-replicas{topo_shape}", spec_bad[1], witness)
         else:
-            res.add("replicas-unequal-at-quiescence", comp, f"{kind}|own-replicas", unequal, witness)
+            res.add("replicas-unequal-at-quiescence", comp, f"{kind}|own-replicas{topo_shape}", unequal, witness)
     uniq, out = set(), []
     for v in res.violations:
         if v.key() not in uniq:
